@@ -309,6 +309,34 @@ def one_case(ctx, idx):
             if stuck:
                 ctx.violation("pending call still blocked after the re-exchange completed",
                               "threads %r did not finish within 20 s of completion" % (stuck,), dict(case=desc))
+            elif idx % 2 == 0:
+                # ---- (d) a later, idle re-exchange replays nothing ----------
+                # everything is delivered and every call has returned: one or two more
+                # key exchanges on the now silent session must not make either side
+                # emit any message of type >= 50 (nothing is pending any more)
+                T[peer].set_keepalive(0)
+                T[init].set_keepalive(0)
+                p.wait_quiet(0.3, 5)
+                m2 = p.rec.snapshot()[-1]["n"] + 1
+                ok = True
+                for who in (init, peer)[: 1 + (idx // 2) % 2]:
+                    try:
+                        T[who].renegotiate_keys()
+                    except Exception as e:
+                        ok = False
+                        ctx.violation("idle re-exchange after a busy one failed (%s)" % type(e).__name__,
+                                      "renegotiate_keys on the quiet session raised %r" % (e,), dict(case=desc))
+                        break
+                p.wait_quiet(0.3, 5)
+                if ok:
+                    ctx.count("idle_reexchanges_after_busy_one")
+                    stray = [(e["side"], e["type"]) for e in p.rec.snapshot()
+                             if e["n"] >= m2 and e.get("kind") == "msg" and e["dir"] == "out" and e["type"] >= 50]
+                    if stray:
+                        ctx.violation("messages re-sent by a later idle re-exchange (%s)"
+                                      % ",".join(sorted({MSG_NAMES.get(t, str(t)) for _, t in stray})),
+                                      "an idle key exchange made a side emit %r although nothing was pending" % (stray[:10],),
+                                      dict(case=desc))
         ctx.case(tuple(sorted((k, str(v)) for k, v in desc.items())),
                  sample=dict(desc, inwindow=inwin, completed=completed, alive=alive) if idx < 2 else None,
                  nontrivial=inwin > 0)
@@ -361,3 +389,4 @@ def run(ctx):
             break
         ctx.guard(one_case, ctx, i)
     ctx.require("connection_msgs_delivered_inside_kex_window", 20)
+    ctx.require("idle_reexchanges_after_busy_one", 10)
